@@ -302,20 +302,38 @@ def adev_param_agreement(ctx, rule="SIB-estimator-parameterisation"):
         return cls, bind, fixed, kws
 
     n = 0
+    # the estimators built with distribution(reinforce(sample, logpdf, keyful), logpdf) are found on the *value* of each module-level
+    # definition (evaluated with the symbolic evaluator, private factory helpers inlined), not on its spelling
+    from ..symeval import Frame, ts as _ts2
+    CORE_ = "genjax.core."
     for name, node in mod.defs.items():
-        if not (isinstance(node, ast.Call) and unp(node.func) == "distribution" and node.args and isinstance(node.args[0], ast.Call) and unp(node.args[0].func) == "reinforce"):
+        if not isinstance(node, ast.Call):
             continue
+        ev_ = mk_ev(ctx)
+        try:
+            val = ev_.expr(node, Frame(ev_, mod, mod.name + ".<module>"))
+        except Exception:
+            continue
+        dcalls = [x for x in subterms(val) if is_call(x, name=CORE_ + "distribution") and x[2] and is_call(x[2][0], name="genjax.adev.reinforce")]
+        if not dcalls:
+            continue
+        d = dcalls[0]
         n += 1
-        r = node.args[0]
+        r = d[2][0]
         construct = f"adev.{name}"
         loc = f"{mod.path}:{node.lineno}"
-        a = [unp(x) for x in r.args]
+
+        def dotted(t):
+            return t[1].replace("genjax.distributions.", "").replace("genjax.adev.", "") if t[0] == "name" else _ts2(t, ev_)
+        rargs = list(r[2]) + [v for k, v in r[3] if k in ("keyful_sample_func",)]
+        a = [dotted(x) for x in rargs]
         if len(a) != 3:
             ctx.bad(rule, construct, "reinforce(sample, logpdf, keyful)", f"found reinforce({', '.join(a)})", loc)
             continue
         base = a[0].split(".")[0]
-        if a[0] != f"{base}.sample" or a[1] != f"{base}.logpdf" or unp(node.args[1]) != f"{base}.logpdf":
-            ctx.bad(rule, construct, "sampler and densities from one base distribution", f"found sample={a[0]} logpdf={a[1]} assess-logpdf={unp(node.args[1])}", loc)
+        assess_lp = dotted(d[2][1]) if len(d[2]) > 1 else None
+        if a[0] != f"{base}.sample" or a[1] != f"{base}.logpdf" or assess_lp != f"{base}.logpdf":
+            ctx.bad(rule, construct, "sampler and densities from one base distribution", f"found sample={a[0]} logpdf={a[1]} assess-logpdf={assess_lp}", loc)
             continue
         kf = mod.defs.get(a[2])
         if not isinstance(kf, ast.FunctionDef) or base not in docs:
